@@ -83,9 +83,11 @@ def check_dispatch(ctx: Ctx, ic, ce: FuncInfo) -> Set[str]:
     ok, off = returns_or_raises_everywhere(ce.body)
     ctx.check(ok, "DP-CLOSED", ce, "every path returns a qubit or raises", "", f"a path falls through or returns nothing at {ce.loc(off) if off is not None else 'end of function'}", off)
     ifs = [s for s in ce.body if isinstance(s, ast.If)]
-    if len(ifs) != 1:
-        raise AnchorError(ce.short, "expected one if/elif dispatch chain")
-    chain, els = q.if_chain(ifs[0])
+    if not ifs:
+        raise AnchorError(ce.short, "expected a dispatch over the expression heads")
+    chain, els = q.dispatch_chain(ce.body)
+    if els is None:
+        raise AnchorError(ce.short, "the dispatch is neither one if/elif chain nor a sequence of returning ifs")
     ctx.check(bool(els) and isinstance(els[-1], ast.Raise), "DP-CLOSED", ce, "unknown heads raise", "final else raises", "final else does not raise: an unhandled head is silently mis-compiled", ifs[0])
     heads: Set[str] = set()
     for test, body in chain:
